@@ -102,7 +102,7 @@ def main():
         ],
         checks=checks,
         notes="Hook files: src/verif_hooks.rs, src/verif_hooks/*.rs (new); guarded `use`/`mod` lines added to src/{lib,multiqueue,wait,read_cursor,memory,countedindex,atomicsignal,alloc,broadcast,mpmc}.rs. "
-              "Known findings: /verif/KNOWN_FINDINGS.txt. Seeded mutants used for self-validation: /verif/seeded/. exit 2 of a check = inconclusive (vacuous harness, loop bound too small, counterexample not reproduced natively, or nothing decided); a harness that only hit its time/memory limit is reported as NOT-EXPLORED and does not change the exit code. Repairs of genuine defects in /repo: commits 872f8a8, b979e17, f2d90da, 77e2390, add4cb6, 7fdee23 (all recorded as fixed: in KNOWN_FINDINGS.txt).",
+              "Known findings: /verif/KNOWN_FINDINGS.txt. Seeded mutants used for self-validation: /verif/seeded/. exit 2 of a check = inconclusive (vacuous harness, loop bound too small, counterexample not reproduced natively, or nothing decided); a harness that only hit its time/memory limit is reported as NOT-EXPLORED and does not change the exit code. Repairs of genuine defects in /repo: commits 872f8a8, b979e17, f2d90da, 77e2390, add4cb6, 7fdee23, 4bcb8f3 (all recorded as fixed: in KNOWN_FINDINGS.txt).",
         not_applicable=na,
     )
     json.dump(m, open(os.path.join(VERIF, "MANIFEST.json"), "w"), indent=1)
